@@ -76,6 +76,8 @@ def mc_text(name, kind, dim, size, seed_compare="value", dk_refresh=True):
         "ModeNos": "{4, 6}", "Periods": "{1, 2}" if kind == "Fourier" else "{1}",
         "SeedCompare": '"%s"' % seed_compare, "DkRefresh": "TRUE" if dk_refresh else "FALSE",
         "MaxDraws": "3",
+        "UpdModels": ("{[var |-> 1, len |-> 2, anis |-> 1, ang |-> 0, nug |-> 0]}" if dim == 1 else
+                      "{[var |-> 1, len |-> 1, anis |-> 3, ang |-> 0, nug |-> 0], [var |-> 2, len |-> 2, anis |-> 1, ang |-> 1, nug |-> 1]}"),
         "InitModels": ("{[var |-> 1, len |-> 1, anis |-> 1, ang |-> 0, nug |-> 0]}" if dim == 1 else
                        "{[var |-> 1, len |-> 1, anis |-> 1, ang |-> 0, nug |-> 0], [var |-> 2, len |-> 1, anis |-> 2, ang |-> 1, nug |-> 0]}")
         if small else "Model",
@@ -161,6 +163,14 @@ class Real:
             srf.generator.seed = seed_obj(op["v"], self.fresh)
         elif n == "GenReset":
             srf.generator.reset_seed(seed_obj(op["v"], self.fresh))
+        elif n == "GenUpdate":
+            srf.model = self.model(op["m"])
+            kw = {}
+            if op["p"] != KEEP:
+                kw["period"] = period_of(op["p"], self.dim)
+            if op["n"] != KEEP:
+                kw["mode_no"] = [fourier_modes(op["n"])] * self.dim
+            srf.generator.update(model=srf.model, **kw)
         else:
             raise AssertionError(n)
 
@@ -190,8 +200,10 @@ def last_change(hist):
             break
         if op["name"] == "InPlace":
             out.add("inplace-" + op["fld"])
-        elif op["name"] == "AssignModel":
+        elif op["name"] in ("AssignModel", "GenUpdate"):
             out.add("model-assign")
+            if op["name"] == "GenUpdate":
+                out.add("GenUpdate")
         else:
             out.add(op["name"])
     if hist and hist[-1].get("seed", KEEP) != KEEP:
@@ -354,7 +366,7 @@ def _work(job):
         def sig(p):
             return tuple(sorted({nodes[i]["op"]["name"] + ("." + str(nodes[i]["op"].get("fld", ""))) for i in p[1:]}))
         rng.shuffle(ps)
-        rare = ("GenPeriod", "GenModeNo", "GenSeed", "GenReset", "AssignModel", "InPlace.anis", "InPlace.ang")
+        rare = ("GenUpdate", "GenPeriod", "GenModeNo", "GenSeed", "GenReset", "AssignModel", "InPlace.anis", "InPlace.ang")
         ps.sort(key=lambda p: -sum(any(x.startswith(r) for x in sig(p)) for r in rare))
         seen, first, rest = set(), [], []
         for p in ps:
@@ -449,7 +461,7 @@ def random_executions(kind, cls, dim, rng, n_exec, n_ops):
             r = Real(kind, cls, dim, st, fresh=True)
             events.append(dict(name="Init", pm=dict(pm), seed=st["seed"], modeNo=st["modeNo"], period=st["period"], draws=0))
             for _i in range(n_ops):
-                k = rng.choice(["Call", "Call", "Call", "InPlace", "InPlace", "AssignModel", "GenModeNo", "GenSeed", "GenReset"]
+                k = rng.choice(["Call", "Call", "Call", "InPlace", "InPlace", "AssignModel", "GenModeNo", "GenSeed", "GenReset", "GenUpdate"]
                                + (["GenPeriod"] if kind == "Fourier" else []))
                 if k == "Call":
                     op = {"name": "Call", "seed": rng.choice([KEEP, KEEP] + seeds)}
@@ -467,6 +479,15 @@ def random_executions(kind, cls, dim, rng, n_exec, n_ops):
                     if m == pm:
                         continue
                     op = {"name": "AssignModel", "m": dict(m)}
+                    pm = dict(m)
+                    r.apply(op)
+                elif k == "GenUpdate":
+                    m = {"var": rng.choice([1, 2]), "len": rng.choice([1, 2]), "anis": rng.choice(anis_toks),
+                         "ang": rng.choice(ang_toks), "nug": rng.choice([0, 1])}
+                    if m == pm:
+                        continue
+                    fo = kind == "Fourier"
+                    op = {"name": k, "m": dict(m), "p": rng.choice([KEEP, 1, 2]) if fo else KEEP, "n": rng.choice([KEEP, 4, 6]) if fo else KEEP}
                     pm = dict(m)
                     r.apply(op)
                 elif k == "GenReset":
